@@ -25,6 +25,126 @@ def _rb__effects(E, env, outcome):
     E.havoc_heap(r)
 
 
+# ---- C09: ghost evaluation trace of the 'i' (if/elif/else/unless/call) interpreter -------------
+GI_ = M + ".TemplateDict.__getitem__"
+RB__ = M + ".render_blocks_"
+
+
+def _same(E, a, b):
+    import z3
+    try:
+        return E.to_val(a) == E.to_val(b)
+    except Exception:
+        return z3.BoolVal(a is b)
+
+
+def _events(trace):
+    ev = []
+    for t in trace:
+        if t[0] == 'contract-call' and t[1] == GI_:
+            ev.append(['lookup', t[2].get('name'), None, None])
+        elif t[0] == 'contract-ret' and t[1] == GI_ and ev and ev[-1][0] == 'lookup':
+            ev[-1][2] = 'ret'
+            ev[-1][3] = t[2]
+        elif t[0] == 'contract-raise' and t[1] == GI_ and ev and ev[-1][0] == 'lookup':
+            ev[-1][2] = 'raise'
+        elif t[0] == 'call':
+            ev.append(['callcond', t[3], None, None])
+        elif t[0] == 'contract-call' and t[1] == RB__:
+            ev.append(['render', t[2].get('blocks'), None, None])
+        elif t[0] == 'dict_set':
+            ev.append(['dict_set', t[1], t[3], t[4]])
+    return ev
+
+
+def _check_eval(E, env, ev, cond0, fq, tag):
+    """exactly one evaluation of the condition at hand; a successful name lookup is cached"""
+    evals = [e for e in ev if e[0] in ('lookup', 'callcond')]
+    E.oblige('%s::C09.%s.one_evaluation' % (fq, tag), len(evals) == 1, kind='trace',
+             detail='each loop iteration evaluates exactly one condition (found %d)' % len(evals))
+    if len(evals) != 1:
+        return
+    e = evals[0]
+    E.oblige('%s::C09.%s.evaluates_current_condition' % (fq, tag), _same(E, e[1], cond0), kind='trace',
+             detail='the condition evaluated is block[icond+1]')
+    if e[0] == 'lookup' and e[2] == 'ret':
+        cache = env.locals.get('cache')
+        sets = [d for d in ev if d[0] == 'dict_set' and cache is not None and d[1] == cache.addr]
+        ok = len(sets) == 1
+        E.oblige('%s::C09.%s.lookup_cached_once' % (fq, tag), ok, kind='trace',
+                 detail='a successful name lookup stores the value in the block cache exactly once (found %d)' % len(sets))
+        if ok:
+            E.oblige('%s::C09.%s.cached_key_is_name' % (fq, tag), _same(E, sets[0][2], e[1]), kind='trace',
+                     detail='cache key is the condition name')
+            E.oblige('%s::C09.%s.cached_value_is_result' % (fq, tag), _same(E, sets[0][3], e[3]), kind='trace',
+                     detail='cache value is the looked-up value (reused, not recomputed)')
+    if e[0] == 'lookup' and e[2] == 'raise':
+        cache = env.locals.get('cache')
+        sets = [d for d in ev if d[0] == 'dict_set' and cache is not None and d[1] == cache.addr]
+        E.oblige('%s::C09.%s.undefined_not_cached' % (fq, tag), len(sets) == 0, kind='trace',
+                 detail='an undefined name is not cached')
+        E.oblige('%s::C09.%s.undefined_is_false' % (fq, tag), E.valid(E.to_val(env.locals['cond']) == E.to_val(NONE_)),
+                 kind='trace', detail='an undefined name counts as false (cond is None)')
+
+
+def _i_on_iteration(E, env, trace, fq, ordn):
+    ev = _events(trace)
+    cond0 = E.eval_spec("blk[icond - 1]", env, E.ghost_env(env))
+    _check_eval(E, env, ev, cond0, fq, 'iteration')
+    renders = [e for e in ev if e[0] == 'render']
+    E.oblige('%s::C09.iteration.false_condition_renders_nothing' % fq, len(renders) == 0, kind='trace',
+             detail='a condition that is false renders nothing')
+
+
+def _i_on_break(E, env, trace, fq, ordn):
+    ev = _events(trace)
+    cond0 = E.eval_spec("blk[icond + 1]", env, E.ghost_env(env))
+    _check_eval(E, env, ev, cond0, fq, 'chosen')
+    renders = [e for e in ev if e[0] == 'render']
+    E.oblige('%s::C09.chosen.renders_at_most_once' % fq, len(renders) <= 1, kind='trace', detail='chosen body rendered at most once')
+    if len(renders) == 1:
+        body = E.eval_spec("blk[icond + 2]", env, E.ghost_env(env))
+        E.oblige('%s::C09.chosen.renders_own_body' % fq, _same(E, renders[0][1], body), kind='trace',
+                 detail='the body rendered is block[icond+2], the body of the first true condition')
+        order = [e[0] for e in ev if e[0] in ('lookup', 'callcond', 'render')]
+        E.oblige('%s::C09.chosen.evaluate_then_render' % fq, order[-1] == 'render' and len(order) == 2, kind='trace',
+                 detail='condition evaluated before its body is rendered')
+    import z3
+    E.oblige('%s::C09.chosen.else_disabled' % fq, E.as_z3_int(env.locals['m']) == -1, kind='trace',
+             detail='after a true condition m == -1, so the else body is not rendered')
+
+
+def _outer_on_iteration(E, env, trace, fq, ordn):
+    """one block processed; for an 'i' block check what happens after the condition loop"""
+    marks = [i for i, t in enumerate(trace) if t[0] in ('loop_exit', 'loop_break') and t[1] == 2]
+    if not marks:
+        return
+    kind = trace[marks[-1]][0]
+    after = _events(trace[marks[-1] + 1:])
+    evals = [e for e in after if e[0] in ('lookup', 'callcond')]
+    E.oblige('%s::C09.after.no_further_evaluation' % fq, len(evals) == 0, kind='trace',
+             detail='no condition is evaluated after the first true one / after the chain is exhausted')
+    renders = [e for e in after if e[0] == 'render']
+    if kind == 'loop_break':
+        E.oblige('%s::C09.after.nothing_else_rendered' % fq, len(renders) == 0, kind='trace',
+                 detail='after the chosen body nothing else of the conditional is rendered')
+    else:
+        E.oblige('%s::C09.else.renders_at_most_once' % fq, len(renders) <= 1, kind='trace', detail='else body rendered at most once')
+        if len(renders) == 1:
+            genv = E.ghost_env(env)
+            body = E.eval_spec("blk[icond + 1]", env, genv)
+            E.oblige('%s::C09.else.renders_else_body' % fq, _same(E, renders[0][1], body), kind='trace',
+                     detail='only the else body block[icond+1] is rendered when no condition was true')
+            E.oblige('%s::C09.else.only_when_present' % fq,
+                     E.as_z3_int(env.locals['icond']) == E.as_z3_int(env.locals['m']), kind='trace',
+                     detail='else rendered only when an else section exists (icond == m)')
+    app = env.locals.get('append')
+    E.oblige('%s::C09.after.block_emits_nothing_itself' % fq, isinstance(app, VC_) and app.v is False, kind='trace',
+             detail="the conditional itself appends no piece (append is False)")
+
+
+from pyvc.values import NONE as NONE_, VC as VC_  # noqa
+
 contract(M + ".render_blocks_",
          params=dict(blocks=Seq(), rendered=ListS(), md=TD(), encoding=Opaque()),
          ensures=dict(SN), exc_ensures=dict(SN),
@@ -34,14 +154,21 @@ contract(M + ".render_blocks_",
          effects=_rb__effects,
          invariants={
              1: dict(header="for block in blocks", inv=dict(SN), havoc_heap=["rendered"],
+                     on_iteration=_outer_on_iteration,
                      types={'block': 'opaque', 'append': 'bool', 't': 'opaque', 'cond': 'opaque', 'n': 'opaque',
                             'bs': 'int', 'm': 'int', 'icond': 'int', 'cache': 'opaque', 'first_char': 'opaque',
                             'skip_html_quote': 'int', 'untaintmethod': 'opaque'}),
              2: dict(header="icond < m",
                      inv=dict(pushed="stack_extra(md) == 1", level="level_of(md) == old(level_of(md))",
-                              ),
-                     havoc_heap=["rendered", "cache"],
-                     types={'cond': 'opaque', 'n': 'opaque'}),
+                              # C09
+                              icond_nonneg="icond >= 0", icond_even="icond % 2 == 0",
+                              m_is_last="m == bs - 1", bs_is_len="bs == len_of(blk) - 1",
+                              nothing_rendered_yet="len_of(rendered) == r0"),
+                     ghost={'blk': 'block', 'r0': 'len_of(rendered)'}, ghost_types={'blk': 'same', 'r0': 'same'},
+                     havoc_heap=["cache"],
+                     types={'cond': 'opaque', 'n': 'opaque', 'block': 'same'},
+                     decreases="m - icond",
+                     on_iteration=_i_on_iteration, on_break=_i_on_break),
          })
 
 contract(M + ".join_unicode",
